@@ -58,6 +58,12 @@ CHECKS = {
         technique='CrossHair symbolic execution (z3) of every operation in two-model histories with symbolic cardinalities, and of GenerateRandomAttribute with a stubbed random whose draws, range bounds and flags are symbolic',
         text='Snapshot before/after and result-vs-fresh-object equality for all ten read-only operations over symbolic cardinalities of both models; random attribute generation is decided for all draws of the random stub, all integer range bounds, all target masks. Bounded.',
         note='Trusted: CrossHair + patches, z3, the random stub contract (choice/randint/uniform), snapshot(). Histories of 2 (E1) / 3 (native). Float ranges limited to the 9-point stub.'),
+    'C05': dict(
+        category='model_checking', design_ref='6 C01/C05/C06/C07/C08',
+        technique='CrossHair symbolic execution (z3) of json_writer.to_json composed with JSONReader.parse_json at dict level on symbolic names, cardinalities, flags and attribute values; z3 equivalence of constraint skeletons',
+        text='Writer and reader run symbolically end to end at dict level (json.dump/load is a stub): one cycle from an arbitrary fragment model gives the same model and the same dict (inductive step), cycles 2 and 3 are executed too; '
+             'the file boundary and parse_json-vs-file are exercised natively on every shape and on a list of hostile names. Bounded.',
+        note='Trusted: CrossHair + patches, z3, snapshot(), the json stub contract. N<=4/5, |name|<=3/4, attribute ints unbounded.'),
 }
 
 NOT_YET = {}
